@@ -43,7 +43,7 @@ func init() {
 		Run:    run,
 		Replay: replay,
 		Rule: "leg A: states = abstract states of each machine (BFS, 256 bytes each); transitions = (state, chunk) pairs, chunk = every string of length 2..L over one representative per byte class, fed at once vs byte-wise, concrete snapshots compared; " +
-			"leg B: every (state, byte) input of the oj.Parser product search through all front-ends whole and byte-wise; leg C: token texts x contexts x every 2-split / 4096 straddle; leg D: every SEN text of <= L class representatives x every chunking into <=3 pieces; " +
+			"leg B: every (state, byte) input of the oj.Parser product search through all front-ends whole and byte-wise; leg C: token texts x contexts x every 2-split / 4096 straddle, each chunking also under the reader's other lawful answers (io.EOF with the last chunk, one empty read at every position; legs B and C) and each []byte run also with a continuation stored in the spare capacity and with none; leg D: every SEN text of <= L class representatives x every chunking into <=3 pieces; " +
 			"leg E: every exported parse / tokenize / validate entry point (package functions, Must* and *String forms, methods of fresh and Reuse parsers) x every kind of optional argument x every way a reader ends, against (&Parser{}).Parse of the same package, and the packages against each other; " +
 			"distinct_nontrivial = (state, chunk) pairs where the machine is still alive after the chunk + inputs accepted by at least one front-end",
 		Assumptions: []string{"byte classes are recomputed from the current tables; bytes compared literally in the code are kept as separate classes",
